@@ -331,7 +331,7 @@ fn start_watchdog(out: &Path) {
     });
 }
 
-fn known_match<'a>(known: &'a [Known], sig: &str) -> Option<&'a Known> {
+pub fn known_match<'a>(known: &'a [Known], sig: &str) -> Option<&'a Known> {
     if let Some(k) = known.iter().find(|k| k.sig == sig || glob_match(&k.sig, sig)) {
         return Some(k);
     }
@@ -1135,6 +1135,19 @@ pub fn main_with(props: Vec<Box<dyn Property>>) -> i32 {
             _ => {}
         }
         i += 1;
+    }
+    if args.iter().any(|a| a == "--random-families") {
+        // "<family>:<max_len>" per random-bytes family of the thorough tier (used by the libFuzzer stage)
+        let v: Vec<String> = prop
+            .families(Tier::Thorough)
+            .iter()
+            .filter_map(|f| match f.kind {
+                FamilyKind::Random { max_len, .. } => Some(format!("{}:{}", f.name, max_len)),
+                _ => None,
+            })
+            .collect();
+        println!("{}", v.join(" "));
+        return 0;
     }
     crate::yrun::install_panic_hook();
     if let Some((w, n)) = worker {
